@@ -1595,6 +1595,19 @@ def c16_rewriter(tier, seed):
                         effect = 'RunReactants raised %s' % type(ex).__name__
                 viol.append({'id': 'sequential-booking-%s' % name_, 'cls': 'K10:edits-booked-against-declared-state', 'input': t2, 'observed': [got_, {'products of ' + smi_: effect}],
                              'expected': want_ + ' (electron balance of each labelled atom, edits taken in order)'})
+    # K12 (recorded finding): a balanced rule that declares a second reactant as a duplicate of the first (a construct of the grammar) can be read
+    dup_ = ('rule r{ reactant r1{ C labeled c1 H labeled h1 single bond to c1 } reactant r2 duplicates r1 ( c1 => c2, h1 => h2 ) '
+            'break bond (%s, %s) increase number of radical (%s) increase number of radical (%s) }')
+    for a_, h_ in (('c1', 'h1'), ('c2', 'h2')):
+        n += 1
+        t2 = dup_ % (a_, h_, a_, h_)
+        try:
+            with real.quiet():
+                Read(t2)
+        except Exception as ex:    # noqa
+            viol.append({'id': 'duplicates-reactant-%s' % a_, 'cls': 'K12:duplicates-reactant-unreadable', 'input': t2, 'observed': '%s: %s' % (type(ex).__name__, str(ex)[:100]),
+                         'expected': 'a balanced rule is readable',
+                         'script': "from pgradd.RINGParser.Reader import Read\nprint(Read(%r))   # expected: a reaction query\n" % t2})
     return {'name': 'independent-graph-rewriter', 'evaluations': n, 'distinct_nontrivial': distinct, 'violations': viol, 'samples': samples,
             'bound': '%d unimolecular rules (1-3 atom reactant, break/form/increase/decrease bond, radical +/-/set) and their unbalanced variants x %d molecules' % (len(C16_RULES), len(smiles)),
             'rule': 'a case is (rule, molecule); rules distinct'}
